@@ -86,6 +86,28 @@ type c12case struct {
 	UserAttrs bool `json:"two_uncomparable_user_attrs_with_adjacent_keys,omitempty"`
 	// the logger has registered context keys, the context holds values for them and is already cancelled (the shutdown path)
 	DoneCtxKeys bool `json:"context_keys_and_a_cancelled_context,omitempty"`
+	// the destination reported "file already closed" (wrapped) for ONE earlier record - a log file in the middle of its
+	// rotation - and works again since
+	ClosedOnce bool `json:"destination_reported_closed_for_one_earlier_record,omitempty"`
+	// the message begins with a line break
+	LeadingBreak bool `json:"message_begins_with_a_line_break,omitempty"`
+	// the inherit flag is on and the logger is the last of a chain root (one attribute) -> middle (none) -> logger (one):
+	// the record carries the root's attribute too
+	InheritChain bool `json:"inherit_flag_and_a_bare_logger_in_the_middle_of_the_chain,omitempty"`
+}
+
+// closedOnceW reports a wrapped os.ErrClosed for its first Write and stores what it is handed ever after.
+type closedOnceW struct {
+	f    *os.File
+	seen bool
+}
+
+func (w *closedOnceW) Write(p []byte) (int, error) {
+	if !w.seen {
+		w.seen = true
+		return 0, fmt.Errorf("write app.log (rotating): %w", os.ErrClosed)
+	}
+	return w.f.Write(p)
 }
 
 // muteW takes nothing and reports no error either.
@@ -321,6 +343,17 @@ func c12enumerate() []c12case {
 			d++
 		}
 	}
+	// round 13: a destination that said "closed" once, a message that begins with a line break, the inherit flag with a
+	// bare logger in the middle of the chain
+	d = 0
+	for _, b := range base {
+		if b.Format == "color" && b.Admit {
+			xs := []c12case{b, b, b}
+			xs[d%3].ClosedOnce, xs[(d+1)%3].LeadingBreak, xs[(d+2)%3].InheritChain = true, true, true
+			out = append(out, xs...)
+			d++
+		}
+	}
 	return out
 }
 
@@ -398,6 +431,12 @@ func c12exec(c *Ctx, out string) {
 	if cs.MarkupMsg {
 		c12msg = c12msgBase + c12markup
 	}
+	if cs.LeadingBreak {
+		c12msg = "\n" + c12msgBase
+	}
+	if cs.InheritChain {
+		slog.AddFlags(slog.LattrsR)
+	}
 	if cs.PkgLevelOff {
 		slog.SetLevel(slog.OffLevel)
 	}
@@ -410,8 +449,17 @@ func c12exec(c *Ctx, out string) {
 		lg = slog.New("made-with-a-handler", stdslog.NewTextHandler(io.Discard, nil)).Root().New("c12")
 		lgL = lg
 	}
-	if cs.Kind == "child" {
+	if cs.InheritChain {
+		lg.Set("top", "inherited-from-the-root")
+		lg = lg.New("bare-middle")
+		lgL = lg
+	}
+	if cs.Kind == "child" || cs.InheritChain {
 		lg = lg.New("kid")
+		if cs.InheritChain {
+			lg.Set("own", "of-the-logger")
+			lgL = lg
+		}
 	}
 	var defRoot *slog.Entry
 	if cs.DefChild {
@@ -422,6 +470,12 @@ func c12exec(c *Ctx, out string) {
 	lg.SetWriter(f).SetErrorWriter(f)
 	if cs.FailingWriter {
 		lg.SetWriter(failAfterStore{f}).SetErrorWriter(failAfterStore{f})
+	}
+	if cs.ClosedOnce {
+		cw := &closedOnceW{f: f}
+		lg.SetWriter(cw).SetErrorWriter(cw)
+		lg.SetLevel(slog.AlwaysLevel)
+		lg.Error("an earlier record, while the log file was being rotated") // (error class, like the call under test) the destination says "closed" for this one
 	}
 	switch cs.Dest {
 	case "file-writer":
@@ -696,6 +750,8 @@ func c12matrix(c *Ctx) {
 		// no destination to look at: the termination rule is all there is to judge
 		noDest := cs.Dest == "discard" || cs.Dest == "none"
 		switch {
+		case cs.InheritChain && cs.Admit && !(bytes.Contains(rec, []byte("inherited-from-the-root")) && bytes.Contains(rec, []byte("of-the-logger"))):
+			fail("record-first", "admitted call with the inherit flag on: the record does not carry the attributes of the logger chain (root: top, logger: own)")
 		case noDest && len(rec) != 0:
 			fail("record-first", "the Panic / Fatal record went to the normal destination although the error device leads elsewhere")
 		case cs.Admit && !whole && !noDest:
@@ -705,7 +761,7 @@ func c12matrix(c *Ctx) {
 		case terminate && cs.Sev == "panic":
 			if exit != 0 || res == nil || !res.Panicked {
 				fail("panic-expected", "admitted Panic without no-interrupt flag must panic")
-			} else if wantMsg := c12msgBase + map[bool]string{true: "\r\n\n"}[cs.TrailingBreaks] + map[bool]string{true: c12markup}[cs.MarkupMsg]; res.Value != wantMsg || res.ValueT != "string" {
+			} else if wantMsg := map[bool]string{true: "\n"}[cs.LeadingBreak] + c12msgBase + map[bool]string{true: "\r\n\n"}[cs.TrailingBreaks] + map[bool]string{true: c12markup}[cs.MarkupMsg]; res.Value != wantMsg || res.ValueT != "string" {
 				fail("panic-value", fmt.Sprintf("panic value is %q (%s), expected the message", res.Value, res.ValueT))
 			} else {
 				c.R.Add("panics_observed", 1)
